@@ -891,10 +891,13 @@ func deepGet(m map[string]any, keys ...string) (any, bool) {
 func deepSet(m map[string]any, keys []string, value any) {
 	for i := 0; i < len(keys)-1; i++ {
 		key := keys[i]
-		if _, ok := m[key]; !ok {
-			m[key] = make(map[string]any)
+		next, ok := m[key].(map[string]any)
+		if !ok {
+			// absent, or a conflicting scalar given for the same key (a[b]=1&a[b][c]=2): the nested form wins
+			next = make(map[string]any)
+			m[key] = next
 		}
-		m = m[key].(map[string]any)
+		m = next
 	}
 	m[keys[len(keys)-1]] = value
 }
